@@ -440,6 +440,7 @@ def stub_family(ck, np, Reweighter, StateManager, cov):
             obs = binding.observe(st, F)
             exp = binding.expected(st, F)
             bad = binding.compare(obs, exp)
+            conforming = bad is None
             cov["evaluations"] += len(obs["qlog"])
             if bad and not obs["qlog"]:
                 # the code never asked the stubbed metric: it is organised differently from the specification; this family cannot
@@ -476,7 +477,7 @@ def stub_family(ck, np, Reweighter, StateManager, cov):
             if st["mode"] == "ess":
                 cov["ess_memos_monotone" if monotone_memo(st["essM"]) else "ess_memos_non_monotone"] += 1
             # binding self-test: a corrupted expectation of a conforming observation must be rejected
-            if n <= 60 and bad is None:
+            if n <= 60 and conforming:
                 for field, f in (("qlog", lambda v: v[:-1]), ("beta", lambda v: v + 2.0 ** -F),
                                  ("logz", lambda v: v - 2.0 ** -F), ("weights", lambda v: v[::-1].copy())):
                     e2 = dict(exp)
